@@ -243,7 +243,9 @@ def replay(con, ob):
     if bad:
         inp["case"] = bad[0]
         return (True, "; ".join(bad[:4]), inp)
-    return None      # nothing fails natively on the inputs tried: reported with the solver's answer only
+    # nothing fails natively (the two tables are walked completely; the other functions over the probes above): the
+    # obligation is lost, the property is not shown broken - undecided, never a violation
+    return ("undecided", "no table entry / probed record is imported wrongly by the real function", inp)
 
 
 replay.finds_own_model = True
